@@ -519,6 +519,10 @@ def coq_meta(P, names):
     pr(P['tabbar']), pr(P['pages']), zl([names(n) for n in P['schema']]))
 
 
+class PAIRS(list):
+  """A list of integer pairs (Coq: list (Z * Z))."""
+
+
 class RG(object):
   """A regroup descriptor (MetaCascade.regroup) read off one recorded update_summary_section call."""
   def __init__(self, d):
@@ -587,7 +591,7 @@ def coq_op(o):
     if isinstance(a, RG):
       return coq_rg(a.d)
     if isinstance(a, (list, tuple)):
-      if o[0] == 'OReident':
+      if o[0] == 'OReident' or isinstance(a, PAIRS):
         return core.coq_list(['(%s, %s)' % (core.zlit(x), core.zlit(y)) for x, y in a])
       if a and isinstance(a[0], RG):
         return core.coq_list([coq_rg(x.d) for x in a])
@@ -758,10 +762,13 @@ def translate(a, P, Q, names, rgs=()):
     if len(new) != 1:
       return UNMODELLED
     cols = [c for c in Q['columns'] if c['parent'] == tid and c['id'] >= next_id([c['id'] for c in P['columns']])]
-    if any(ref_target(Q, c['type']) or c['type'].split(':')[0] in ('Ref', 'RefList') for c in cols):
-      return UNMODELLED
     if not cols or cols[0]['colId'] != 'manualSort':
       return UNMODELLED
+    if any(c['type'].split(':')[0] in ('Ref', 'RefList') for c in cols):
+      if any(c['type'].split(':')[0] in ('Ref', 'RefList') and not ref_target(Q, c['type']) for c in cols):
+        return UNMODELLED
+      return ('OAddTableR', names(new[0]['name']), [c['kind'] for c in cols[1:]], name != 'AddRawTable',
+              PAIRS([(c['id'], ref_target(Q, c['type'])) for c in cols if ref_target(Q, c['type'])]))
     return ('OAddTable', names(new[0]['name']), [c['kind'] for c in cols[1:]], name != 'AddRawTable')
   if name == 'RemoveTable':
     return ('ORemoveTables', [T[a[1]]['id']]) if a[1] in T else UNMODELLED
@@ -820,6 +827,17 @@ def translate(a, P, Q, names, rgs=()):
         return UNMODELLED
       newname = names(new[0]['name'])
     return ('OCreateSection', tref, vref, typ in ('single', 'detail'), newname)
+  if name == 'DetachSummaryViewSection' and isinstance(a[1], int):
+    tid = next_id([t['id'] for t in P['tables']])
+    new = [t for t in Q['tables'] if t['id'] == tid]
+    c0 = next_id([c['id'] for c in P['columns']])
+    cols = [c for c in Q['columns'] if c['parent'] == tid and c['id'] >= c0]
+    if len(new) != 1 or not cols or cols[0]['colId'] != 'manualSort':
+      return UNMODELLED
+    qf = [f for f in Q['fields'] if f['section'] == a[1]]
+    return ('ODetach', a[1], names(new[0]['name']), [c['kind'] for c in cols[1:]],
+            PAIRS([(c['id'], ref_target(Q, c['type'])) for c in cols if ref_target(Q, c['type'])]),
+            PAIRS([(f['id'], f['col']) for f in qf]))
   if name == 'RemoveViewSection':
     return ('ORemoveSections', [a[1]])
   if name == 'RemoveView':
